@@ -828,6 +828,9 @@ func runC08(c *Ctx) {
 		if only == "lex" || only == "lex:actions" {
 			c08Actions(c)
 		}
+		if only == "lex" || only == "lex:lrsem" {
+			c08LrSem(c)
+		}
 		if only == "lex" || only == "lex:extra" {
 			c08LexExtra(c)
 		}
@@ -876,6 +879,8 @@ func runC08(c *Ctx) {
 	c08Actions(c)
 	// ---- 3c. identifier recogniser; white-space set ----
 	c08LexExtra(c)
+	// ---- 3d. goyacc model with semantic values vs x-c09's reader (value expressions) ----
+	c08LrSem(c)
 	// ---- 3d. the goyacc driver: debug trace of the real parser vs the Lean model of the LR loop ----
 	c08ParserTrace(c)
 	tTok := time.Since(t0)
